@@ -305,15 +305,29 @@ func (env *Env) elab(x SExpr) Term {
 		}
 		c := env.child()
 		var binders []string
+		var ranges []string
 		for _, v := range x.Vars {
 			srt, gt := env.specType(v.Type)
 			name := "q$" + v.Name
 			c.vars[v.Name] = Term{S: name, Sort: srt, T: gt}
 			binders = append(binders, fmt.Sprintf("(%s %s)", name, srt))
+			// variables of a sized integer type range over that type ("int" is mathematical)
+			if gt != nil && v.Type != "int" {
+				if lo, hi, ok := intRange(gt); ok {
+					ranges = append(ranges, fmt.Sprintf("(<= %s %s) (<= %s %s)", smtInt(lo), name, name, smtInt(hi)))
+				}
+			}
 		}
 		b := c.elab(x.Body)
 		env.wantBool(b, x.Body)
 		body := b.S
+		if len(ranges) > 0 {
+			if x.Forall {
+				body = fmt.Sprintf("(=> (and %s) %s)", strings.Join(ranges, " "), body)
+			} else {
+				body = fmt.Sprintf("(and %s %s)", strings.Join(ranges, " "), body)
+			}
+		}
 		if len(x.Pats) > 0 {
 			var ps []string
 			for _, pat := range x.Pats {
@@ -993,6 +1007,14 @@ func (env *Env) elabCall(x *SCall) Term {
 			efail("noalias wants slices")
 		}
 		return boolTerm(fmt.Sprintf("(not (= (s.arr %s) (s.arr %s)))", a.S, b.S))
+	case "iszero":
+		// iszero(e): e equals the zero value of its Go type, as the comparison
+		// `e == T{}` in code is modelled (whole-value equality)
+		a := env.elab(x.Args[0])
+		if a.T == nil {
+			efail("iszero: value without Go type")
+		}
+		return boolTerm(fmt.Sprintf("(= %s %s)", a.S, vc.zeroValue(a.T)))
 	case "sameslice":
 		a, b := env.elab(x.Args[0]), env.elab(x.Args[1])
 		return boolTerm(fmt.Sprintf("(= %s %s)", a.S, b.S))
@@ -1052,7 +1074,11 @@ func (env *Env) elabCall(x *SCall) Term {
 				fn, ok = obj.(*types.Func)
 			}
 			if !ok {
-				efail("observe: no method %s on %s", mid.Name, recv.T)
+				// a package-level function F(x, ...) observed as observe(F, x, ...)
+				fn = env.lookupFunc(mid.Name)
+				if fn == nil {
+					efail("observe: no method or function %s for %s", mid.Name, recv.T)
+				}
 			}
 		}
 		sig := fn.Type().(*types.Signature)
@@ -1111,8 +1137,13 @@ func (env *Env) callPure(pf *PureFunc, x *SCall) Term {
 		}
 		args = append(args, a.S)
 	}
+	nargs := len(args)
 	for i, hp := range def.heapParams {
-		args = append(args, env.curHeap()(hp, def.sortsOf[i]))
+		h := env.curHeap()(hp, def.sortsOf[i])
+		if i < len(def.viaParam) && def.viaParam[i] >= 0 && def.viaParam[i] < nargs {
+			h = fmt.Sprintf("(select %s (s.arr %s))", h, args[def.viaParam[i]])
+		}
+		args = append(args, h)
 	}
 	if len(args) == 0 {
 		return Term{S: "spec$" + pf.Name, Sort: def.resultSort, T: def.resultT}
@@ -1136,7 +1167,7 @@ func (vc *FnVC) definePure(pf *PureFunc) *pureDef {
 		binders = append(binders, fmt.Sprintf("(%s %s)", t.S, srt))
 	}
 	def.resultSort, def.resultT = base.specType(pf.Result)
-	if pf.Opaque || pf.Body == nil {
+	if pf.Body == nil {
 		vc.pureDefined[key] = def
 		var ss []string
 		for _, p := range def.params {
@@ -1205,8 +1236,42 @@ func (vc *FnVC) definePure(pf *PureFunc) *pureDef {
 	if vc.isQuantified(body.S) {
 		vc.quantPures[pf.Name] = true
 	}
+	// narrow heap parameters that are read only through one slice parameter (purenarrow.go)
+	def.viaParam = make([]int, len(def.heapParams))
+	declSorts := append([]string{}, def.sortsOf...)
 	for i, c := range def.heapParams {
-		binders = append(binders, fmt.Sprintf("(hp$%s %s)", c, def.sortsOf[i]))
+		def.viaParam[i] = -1
+		srt := def.sortsOf[i]
+		if !strings.HasPrefix(srt, "(Array Int (Array Int ") {
+			continue
+		}
+		if nb, w := narrowPureBody(body.S, pf.Name, c, def.params, len(def.params), i); w >= 0 {
+			body.S = nb
+			def.viaParam[i] = w
+			declSorts[i] = strings.TrimSuffix(strings.TrimPrefix(srt, "(Array Int "), ")")
+		}
+	}
+	for i, c := range def.heapParams {
+		if def.viaParam[i] >= 0 {
+			binders = append(binders, fmt.Sprintf("(ha$%s %s)", c, declSorts[i]))
+		} else {
+			binders = append(binders, fmt.Sprintf("(hp$%s %s)", c, def.sortsOf[i]))
+		}
+	}
+	if pf.Opaque {
+		// opaque with a body: uninterpreted in the integer mode, but a function of the heap
+		// components its body reads (the body is what the bit-vector mode proves contracts from)
+		var ss []string
+		for _, p := range def.params {
+			ss = append(ss, p.Sort)
+		}
+		ss = append(ss, declSorts...)
+		if len(ss) == 0 {
+			vc.decl("spec$"+pf.Name, fmt.Sprintf("(declare-const spec$%s %s)", pf.Name, def.resultSort))
+		} else {
+			vc.decl("spec$"+pf.Name, fmt.Sprintf("(declare-fun spec$%s (%s) %s)", pf.Name, strings.Join(ss, " "), def.resultSort))
+		}
+		return def
 	}
 	kw := "define-fun"
 	if recursive {
@@ -1289,4 +1354,30 @@ func isStringTerm(t Term) bool {
 	}
 	b, ok := t.T.Underlying().(*types.Basic)
 	return ok && b.Info()&types.IsString != 0
+}
+
+// lookupFunc finds a package-level function by name in the contract's package or one of its
+// (transitive, by name) imports; nil when absent or ambiguous.
+func (env *Env) lookupFunc(name string) *types.Func {
+	var found *types.Func
+	try := func(p *types.Package) {
+		if p == nil {
+			return
+		}
+		if f, ok := p.Scope().Lookup(name).(*types.Func); ok {
+			if found == nil {
+				found = f
+			}
+		}
+	}
+	try(env.pkg)
+	if found != nil {
+		return found
+	}
+	if env.pkg != nil {
+		for _, imp := range env.pkg.Imports() {
+			try(imp)
+		}
+	}
+	return found
 }
